@@ -18,28 +18,65 @@ def accepted : List Ev → List Out → List Bytes
   | _ :: es, _ :: os => accepted es os
   | _, _ => []
 
+theorem accepted_cons (e : Ev) (o : Out) (es : List Ev) (os : List Out) :
+    accepted (e :: es) (o :: os) = acc1 e o ++ accepted es os := by
+  cases e <;> cases o <;> simp [accepted, acc1]
+
+/-- generalisation of `C18.accepted_once_in_order` to any start state satisfying the log invariant -/
+theorem allLogged_run (evs : List Ev) : ∀ s : St, LogsInv s →
+    allLogged (run s evs).1 = allLogged s ++ accepted evs (run s evs).2 := by
+  induction evs with
+  | nil => intro s _; simp [run_nil, accepted]
+  | cons e r ih =>
+    intro s hinv
+    obtain ⟨h1, h2⟩ := step_logged s e hinv
+    rw [run_cons, accepted_cons, ih _ h1, h2, List.append_assoc]
+
 /-- ACCEPTED ONCE, IN ORDER: for every history, the writes that returned nil are — each exactly once and in issue
     order — the concatenation of the successive incarnations' logs; nothing else is ever logged. -/
 theorem C18.accepted_once_in_order (b : Nat) (evs : List Ev) :
     allLogged (run { budget := b } evs).1 = accepted evs (run { budget := b } evs).2 := by
-  sorry
+  have h := allLogged_run evs { budget := b } (fun k _ => rfl)
+  rw [h]; rfl
 
 /-- a write that returns nil was accepted by the incarnation that is current when it returns -/
 theorem C18.wrote_current (s : St) (bs : Bytes) (i : Nat) (h : (write s bs).2 = .wrote i) :
     i = (write s bs).1.inc ∧ ∃ l, alGet i (write s bs).1.logs = some (l ++ [bs]) := by
-  sorry
+  have hl : ∀ s' : St, (logTo s' bs).inc = s'.inc ∧
+      ∃ l, alGet s'.inc (logTo s' bs).logs = some (l ++ [bs]) :=
+    fun s' => ⟨rfl, _, alGet_alPut_self _ _ _⟩
+  by_cases h1 : s.closed = true ∨ s.dead = true
+  · rw [write_dead s h1] at h; simp at h
+  · by_cases h2 : s.failW = true
+    · by_cases h3 : (reconnect s).dead = true
+      · rw [write_redial_dead s bs h1 h2 h3] at h; simp at h
+      · rw [write_redial_ok s bs h1 h2 h3] at h ⊢
+        simp only [Out.wrote.injEq] at h
+        subst h; exact hl _
+    · rw [write_live s bs h1 h2] at h ⊢
+      simp only [Out.wrote.injEq] at h
+      subst h; exact hl _
 
 /-- REDIAL IDENTITY: the first dial is a plain dial, every later dial attempt carries the reconnect flag -/
 theorem C18.redial_flags (b : Nat) (evs : List Ev) :
     ∃ k, (run { budget := b } evs).1.dials = false :: List.replicate k true := by
-  sorry
+  obtain ⟨k, hk⟩ := run_dials evs { budget := b }
+  exact ⟨k, by rw [hk]; rfl⟩
 
 /-- control pings are answered with a pong on the current connection and are never returned by Read -/
 theorem C18.ping_filtered (s : St) :
     (deliver s pingMsg).1.rq = s.rq ∧
     (¬ s.closed → ¬ s.dead → ¬ s.failW → (deliver s pingMsg).2 = .wrote s.inc ∧
        alGet s.inc (deliver s pingMsg).1.logs = some ((alGet s.inc s.logs).getD [] ++ [pongMsg])) := by
-  sorry
+  refine ⟨?_, ?_⟩
+  · unfold deliver
+    split
+    · rfl
+    · rw [if_pos rfl]; exact (write_rq s pongMsg).1
+  · intro hc hd hf
+    have h1 : ¬ (s.closed = true ∨ s.dead = true) := fun h => h.elim hc hd
+    rw [deliver_ping s h1, write_live s _ h1 hf]
+    exact ⟨rfl, alGet_alPut_self _ _ _⟩
 
 def deliveredMsgs : List Ev → List Out → List Bytes
   | .deliver bs :: es, o :: os => (if bs ≠ pingMsg ∧ o = .ok then [bs] else []) ++ deliveredMsgs es os
@@ -51,26 +88,52 @@ def readMsgs : List Out → List Bytes
   | .msg b :: r => b :: readMsgs r
   | _ :: r => readMsgs r
 
+theorem readMsgs_cons (o : Out) (os : List Out) : readMsgs (o :: os) = rd1 o ++ readMsgs os := by
+  cases o <;> rfl
+
+theorem deliveredMsgs_cons (e : Ev) (o : Out) (es : List Ev) (os : List Out) :
+    deliveredMsgs (e :: es) (o :: os) = del1 e o ++ deliveredMsgs es os := by
+  cases e <;> simp [deliveredMsgs, del1]
+
+/-- generalisation of `C18.reads_continue` to any start state -/
+theorem reads_run (evs : List Ev) : ∀ s : St,
+    ¬ (run s evs).1.closed = true → ¬ (run s evs).1.dead = true →
+    readMsgs (run s evs).2 ++ (run s evs).1.rq = s.rq ++ deliveredMsgs evs (run s evs).2 := by
+  induction evs with
+  | nil => intro s _ _; simp [run_nil, readMsgs, deliveredMsgs]
+  | cons e r ih =>
+    intro s hc hd
+    rw [run_cons] at hc hd
+    have h1 : ¬ ((step s e).1.closed = true ∨ (step s e).1.dead = true) :=
+      fun h => (run_absorb r _ h).1.elim hc hd
+    have h0 : ¬ (s.closed = true ∨ s.dead = true) := fun h => h1 (step_absorb s e h).1
+    have hs := step_reads s e (fun h => h0 (.inl h)) (fun h => h0 (.inr h))
+    rw [run_cons, readMsgs_cons, deliveredMsgs_cons, List.append_assoc, ih _ hc hd,
+      ← List.append_assoc, hs, List.append_assoc]
+
 /-- reads continue across redials: while the transport is neither closed nor dead, what Read returned so far followed by
     what is still queued is exactly the sequence of (non-ping) messages that arrived, in order, each once -/
 theorem C18.reads_continue (b : Nat) (evs : List Ev)
     (halive : ¬ (run { budget := b } evs).1.closed ∧ ¬ (run { budget := b } evs).1.dead) :
     readMsgs (run { budget := b } evs).2 ++ (run { budget := b } evs).1.rq = deliveredMsgs evs (run { budget := b } evs).2 := by
-  sorry
+  rw [reads_run evs _ halive.1 halive.2]; rfl
 
 /-- BUDGET: a redial succeeds iff one of the next `budget` scripted outcomes is `ok` (an exhausted script means ok);
     otherwise the transport is dead, having made exactly `budget` attempts -/
 theorem C18.budget (s : St) (hb : 0 < s.budget) :
     ((reconnect s).dead = true ↔ (s.dead = true ∨ (s.budget ≤ s.script.length ∧ ∀ o ∈ s.script.take s.budget, o ≠ Dial.ok))) ∧
-    ((reconnect s).dead = true → s.dead = false → (reconnect s).dials.length = s.dials.length + s.budget) := by
-  sorry
+    ((reconnect s).dead = true → s.dead = false → (reconnect s).dials.length = s.dials.length + s.budget) :=
+  have _ := hb  -- (not needed: both parts hold for budget 0 as well)
+  ⟨redial_dead_iff s.budget s, redial_dead_dials s.budget s⟩
 
 /-- DEAD MEANS ERROR: once the budget is exhausted or Close was called, every pending and later Read and Write returns an
     error (nothing blocks, nothing is logged, nothing is delivered), forever -/
 theorem C18.dead_means_error (s : St) (h : s.closed = true ∨ s.dead = true) (bs : Bytes) :
     write s bs = (s, .err) ∧ read s = (s, .err) ∧ (failRead s).1 = s ∧
     (∀ evs, ((run s evs).1.closed = true ∨ (run s evs).1.dead = true) ∧ allLogged (run s evs).1 = allLogged s) := by
-  sorry
+  refine ⟨write_dead s h bs, by simp [read, h], by simp [failRead, h], fun evs => ?_⟩
+  obtain ⟨h1, h2, h3⟩ := run_absorb evs s h
+  exact ⟨h1, by rw [allLogged_eq, allLogged_eq, h2, h3]⟩
 
 example : (run { budget := 2 } [.write [1], .failW, .script [.fail, .ok], .write [2], .deliver pingMsg, .deliver [7], .read]).2
     = [.wrote 0, .ok, .ok, .wrote 1, .wrote 1, .ok, .msg [7]] := by decide
